@@ -538,6 +538,8 @@ def stage_validation(ck, exe, drv, tab, ncases, hist, sample_lines):
                 ck.add_violation(sig, what + ' (conversion failed later; partial file)', replay_obj(c))
             continue
         nval += 1
+        if all(x is not None for x in pyrecs) and all(v.startswith('rec ') for v in lv):
+            hist.setdefault('_expcases', []).append((c, pyrecs))
         if verdict == 'ok' and len(hist.setdefault('_okcases', [])) < 60 and len(c.lines) < 600:
             hist['_okcases'].append(c)
         if any(pr and py_nat(pr.get('bridged')) == 1 for pr in pyrecs):
@@ -809,6 +811,111 @@ def stage_parser(ck, drv, sample_lines, n_mut, hist):
     return len(texts)
 
 
+# ------------------------------------------------------------------ stage 7: exporter transition system vs. the real export
+def _vinfo(r):
+    b = r['bounds']
+    binf = lambda x, clamp: 1 if (isinstance(x, str) or x[1] == clamp) else 0
+    return (py_nat(r['type']), binf(b[0], '-1.79769e+308'), binf(b[1], '1.79769e+308'))
+
+
+def exporter_ops(c, recs):
+    """reconstruct the event sequence of the Lean exporter model (ModelExporter.lean) from the real export (event order =
+    file order; which constraints were reformulated / unused and the final variable data are read from the final records)
+    -> (driver ops, expected canonical non-link records, expected delivered, number of link records)"""
+    def refs(nodes):
+        out = []
+        for nd in nodes:
+            (k, v), = nd.items()
+            a, b = (py_nat(v[0]), py_nat(v[1])) if isinstance(v, list) else (py_nat(v), py_nat(v))
+            out.append('%s:%d:%d' % (hx(k), a, b))
+        return ','.join(out) or '-'
+    groups = [(r['CON_TYPE'], py_nat(r['CON_GROUP_index'])) for r in recs if 'CON_GROUP' in r]
+    ops = ['EX reset', 'EX types ' + ' '.join(hx(t) for t, _ in groups)]
+    ops += ['EX grp %s %d' % (hx(t), g) for t, g in groups]
+    d = c.d
+    for node, n in (('src_vars()', d['nlVars']), ('src_cons()', d['nlAlg'] + d['nlLog']), ('src_objs()', d['nlObjs']), ('dest_objs()', d['nObjs'])):
+        ops.append('EX static %s %d' % (hx(node), n))
+    for r in recs:
+        if 'CON_TYPE' in r and 'final' in r:
+            ops.append('EX name %s %d %s' % (hx(r['CON_TYPE']), py_nat(r['index']), hx(r.get('name', ''))))
+    upd = next((k for k, r in enumerate(recs) if r.get('COMMENT', '').startswith('Updated')), None)
+    if upd is None:
+        return None
+    cur, exp, late_links, nlinks = {}, [], [], 0
+    for r in recs[:upd]:
+        if 'VAR_index' in r:
+            i, b, inf = py_nat(r['VAR_index']), py_nat(r['is_from_nl']), _vinfo(r)
+            cur[i] = inf
+            ops.append('EX v %d %d %d %d' % ((b,) + inf))
+            exp.append('V %d %d %d %d %d' % ((i, b) + inf))
+        elif 'CON_TYPE' in r and 'data' in r:
+            ops.append('EX s ' + hx(r['CON_TYPE']))
+            exp.append('N %s %d' % (hx(r['CON_TYPE']), py_nat(r['index'])))
+        elif 'link_index' in r:
+            ops.append('EX l %s %d %s %s' % (hx(r['link_type']), py_nat(r['link_index'][1]), refs(r['src_nodes']), refs(r['dest_nodes'])))
+            nlinks += 1
+    tail = recs[upd:]
+    for r in tail:
+        if 'VAR_index' in r:
+            i, b, inf = py_nat(r['VAR_index']), py_nat(r['is_from_nl']), _vinfo(r)
+            if cur.get(i) != inf:
+                ops.append('EX sv %d %d %d %d' % ((i,) + inf))
+            exp.append('V %d %d %d %d %d' % ((i, b) + inf))
+        elif 'CON_TYPE' in r and 'final' in r:
+            ty, i = r['CON_TYPE'], py_nat(r['index'])
+            u, b, f = py_nat(r['unused']), py_nat(r['bridged']), py_nat(r['final'])
+            if u:
+                ops.append('EX u %s %d' % (hx(ty), i))
+            elif b:
+                ops.append('EX b %s %d' % (hx(ty), i))
+            exp.append('S %s %d %s %d %d %d' % (hx(ty), i, hx(r.get('name', '')), u, b, f))
+        elif 'CON_GROUP' in r:
+            exp.append('G %s %d' % (hx(r['CON_TYPE']), py_nat(r['CON_GROUP_index'])))
+        elif 'link_index' in r:
+            late_links.append('EX l %s %d %s %s' % (hx(r['link_type']), py_nat(r['link_index'][1]), refs(r['src_nodes']), refs(r['dest_nodes'])))
+            nlinks += 1
+        elif 'CON_TYPE' in r and 'data' in r:
+            return None          # a constraint stored during the push: outside the model
+    ops.append('EX f')
+    ops += late_links
+    ops.append('EX dump')
+    dl = ['D %s %d %s' % (hx(ty), g, hx(nm)) for ty, g, nm in d['cons']]
+    return ops, ';'.join(exp), ';'.join(dl), nlinks
+
+
+def stage_exporter(ck, drv, cases, hist):
+    ops, meta = [], []
+    for c, pyrecs in cases:
+        try:
+            r = exporter_ops(c, pyrecs)
+        except (KeyError, TypeError, IndexError, ValueError):
+            r = None
+        if r is None:
+            hist['exporter_skipped'] = hist.get('exporter_skipped', 0) + 1
+            continue
+        o, exp, dl, nl = r
+        meta.append((c, len(ops) + len(o) - 1, exp, dl, nl, len(o)))
+        ops += o
+    if not ops:
+        return 0
+    ans = run_driver(drv, ops, 'exporter')
+    he = hist.setdefault('exporter_model', {'runs': 0, 'events': 0, 'disagreements': 0})
+    for c, pos, exp, dl, nl, nev in meta:
+        a = ans[pos]
+        he['runs'] += 1
+        he['events'] += nev
+        want = 'rej=0 fin=1 | %s | %s | links=%d' % (exp, dl, nl)
+        if a != want:
+            he['disagreements'] += 1
+            parts, wparts = a.split(' | '), want.split(' | ')
+            which = [n for n, (x, y) in zip(('guards/finished', 'records', 'delivered', 'links'), zip(parts + [''] * 4, wparts)) if x != y]
+            # a guard rejected by the model on a real event sequence, or delivered != API log, is a failing input for the property
+            ck.add_violation('exporter:model-differs:%s' % '+'.join(which),
+                             'the exporter transition system (ModelExporter.lean) run on the event sequence of this real export gives %s where the real run has %s' %
+                             (a[:160], want[:160]), replay_obj(c, {'model': a[:2000], 'real': want[:2000]}), found_input=('guards/finished' in which or 'delivered' in which))
+    return he['runs']
+
+
 # ------------------------------------------------------------------ stage 6: the validator on corrupted exports (differential)
 def stage_mutation(ck, drv, cases, nmut, hist):
     """corrupt real exports (drop / duplicate / swap lines, change an integer, flip a flag) and require that the Lean
@@ -916,7 +1023,7 @@ def stage_config(ck, exe, tab, hist):
 
 
 # ------------------------------------------------------------------ entry
-N_THEOREMS = 30
+N_THEOREMS = 39
 
 
 def run(ck):
@@ -949,12 +1056,14 @@ def run(ck):
     sample_lines = []
     ncases, nval, nlines = stage_validation(ck, exe, drv, tab, 600 if quick else 15000, hist, sample_lines)
     ncfg = stage_config(ck, exe, tab, hist)
+    nexp = stage_exporter(ck, drv, hist.pop('_expcases', []), hist)
+    ck.log('exporter model vs real exports: %s' % hist.get('exporter_model'))
     nmut = stage_mutation(ck, drv, hist.pop('_okcases', [])[:30 if quick else 60], 4 if quick else 20, hist)
     ck.log('mutation differential: %s' % {k: v for k, v in hist.get('mutation', {}).items() if k != 'kinds'})
     npar = stage_parser(ck, drv, sample_lines[:1000 if quick else 5000], 6000 if quick else 40000, hist)
     ck.log('parser cross-check: %s' % hist['parser_crosscheck'])
     ck.log('validation: %d runs, %d converted+validated, %d export lines; outcomes %s' % (ncases, nval, nlines, hist['outcome']))
-    ck.cov['evaluations'] = nlines + nh + npar + ncfg + nmut
+    ck.cov['evaluations'] = nlines + nh + npar + ncfg + nmut + nexp
     ck.cov['traces_validated_against_impl'] = nval
     ck.cov['distinct_nontrivial'] = len(hist.pop('_distinct', set()))
     ck.cov['rule'] = 'one recsolver run of the real converter per generated (model, acceptance set, name mode, options); ' \
@@ -1160,6 +1269,8 @@ def run_coverage(ck):
     sample_lines = []
     ncases, nval, nlines = stage_validation(ck, exe, drv, tab, 600, hist, sample_lines)
     ck.log('coverage stream: %d runs, %d validated; outcomes %s' % (ncases, nval, hist['outcome']))
+    hist.pop('_expcases', None)
+    hist.pop('_okcases', None)
     stage_config(ck, exe, tab, hist)
     lines, branches, funcs = cov_collect(cdir, objs)
     rep = {'seed': ck.seed, 'runs': ncases, 'files': {}}
